@@ -50,6 +50,7 @@ struct SeqStats {
     upto_accrual: bool,
     close_bank_ok: u64,
     disabled_probed: u64,
+    close_probes_on_empty_flagged: u64,
     close_bank_ok_after_activity: u64,
     max_share_value: f64,
 }
@@ -91,6 +92,21 @@ fn run_case(target: Target, spec: &WorldSpec, ops: &[Op], stats: &mut SeqStats, 
                 stats.disabled_probed += 1;
                 for name in r.probe_disabled_account(k) {
                     findings.push(Finding { sig: "structure:disabled-acted".into(), msg: format!("op#{}: right after account {k} was disabled, its authority's {name} was accepted", step.index) });
+                }
+            }
+        }
+        // an account that has just been frozen or disabled is probed with close attempts (authority / admin, with and
+        // without a separate fee payer): "an account can be closed only when it is ... neither disabled, frozen ..."
+        for (k, a1) in &post.accts {
+            let flagged = marginfi_type_crate::types::ACCOUNT_DISABLED | marginfi_type_crate::types::ACCOUNT_FROZEN;
+            let was = pre.accts.get(k).map(|a0| a0.flags & flagged).unwrap_or(0);
+            if a1.flags & flagged & !was != 0 {
+                let (acc, empty) = r.probe_close_flagged(k);
+                if empty {
+                    stats.close_probes_on_empty_flagged += 1;
+                }
+                for name in acc {
+                    findings.push(Finding { sig: "structure:close-flagged".into(), msg: format!("op#{}: right after account {k} got flags {:#x}, {name} was accepted", step.index, a1.flags) });
                 }
             }
         }
@@ -231,6 +247,7 @@ pub fn run_target(ctx: &Ctx, target: Target) -> Report {
                 rep.set_max("max_share_value_reached", stats.max_share_value);
                 rep.add_extra("close_bank_accepted", stats.close_bank_ok);
                 rep.add_extra("disabled_accounts_probed", stats.disabled_probed);
+                rep.add_extra("close_probes_on_empty_frozen_or_disabled_accounts", stats.close_probes_on_empty_flagged);
                 rep.add_extra("close_bank_accepted_after_activity", stats.close_bank_ok_after_activity);
                 if stats.max_share_value >= 1.0e4 {
                     rep.label("share-value>=1e4");
